@@ -46,6 +46,7 @@ static std::string check_opt(const Opt &o, const Model &m, const UserMaps &u, co
   TimeCost tc; WaypointCost wc; RunCost<D> rc = RunCost<D>::mode(9);
   WS w1, w2; Eigen::VectorXd g1, g2; double c1 = o.evaluate(x, g1, tc, wc, rc, &w1), c2 = fresh.evaluate(x, g2, tc, wc, rc, &w2);
   dg.d(c1); dg.mat(g1);
+  { Eigen::VectorXd g3; double c3 = o.evaluate(x, g3, tc, wc, rc); if (!bits_equal(c3, c1) || g3.size() != g1.size() || !bits_equal(g3.data(), g1.data(), g1.size())) return fmt("%s: evaluate() with the built-in workspace (%.17g) differs from the same call with a fresh explicit workspace (%.17g)", name, c3, c1); }
   if (!bits_equal(c1, c2) || g1.size() != g2.size() || !bits_equal(g1.data(), g2.data(), g1.size())) return fmt("%s: evaluate() differs from a freshly configured equivalent optimizer (cost %.17g vs %.17g)", name, c1, c2);
   // decode per the model: durations = toTime(x_i), optimised waypoints = toPhysical(slice), flagged blocks = slices
   const VTimeMap &tm = tm_of(u, m.tm);
@@ -128,14 +129,16 @@ struct World {
   UserMaps u; std::vector<std::unique_ptr<Opt>> opts; WS ws;
   World() {
     const auto &ps = problems();
-    for (int k = 0; k < 3; ++k) { opts.emplace_back(new Opt()); Opt &o = *opts.back(); const auto &p = ps[k == 0 ? 2 : k == 1 ? 3 : 2]; o.setOptimizationFlags(flags_of(k == 2 ? 0xff : 0x22)); o.setEnergyWeights(k == 1 ? 0.0 : 0.25); o.setIntegralNumSteps(2);
-      if (k == 2) { Problem<D> q = p; set_generic_data(q, 99); o.setInitState(q.T, q.P, 3.0, q.bc); } else o.setInitState(p.T, p.P, p.t0, p.bc); }
+    for (int k = 0; k < 4; ++k) { opts.emplace_back(new Opt()); Opt &o = *opts.back(); const auto &p = ps[k == 1 ? 3 : 2]; o.setOptimizationFlags(flags_of(k == 2 ? 0xff : 0x22)); o.setEnergyWeights(k == 1 ? 0.0 : 0.25); o.setIntegralNumSteps(2);
+      if (k == 2) { Problem<D> q = p; set_generic_data(q, 99); o.setInitState(q.T, q.P, 3.0, q.bc); }
+      else if (k == 3) { Problem<D> q = p; q.P.row(0) *= 0.5; q.P.row(q.N) += q.P.row(0); q.bc.start_acceleration *= -1.0; q.bc.end_jerk.setConstant(0.75); o.setInitState(q.T, q.P, p.t0 + 1.0, q.bc); }   // D: same layout, durations and inner waypoints as A, other FIXED data
+      else o.setInitState(p.T, p.P, p.t0, p.bc); }
   }
-  int nops() const { return 12; }   // optimizer k (3) x decision vector (2) x overload (2)
+  int nops() const { return 16; }   // optimizer k (4) x decision vector (2) x overload (2); D is evaluated at A's decision vectors (bit-identical x)
   bool enabled(int) const { return true; }
-  std::string opname(int op) const { return fmt("evaluate(opt %c, x%d, %s-cost overload) on the shared workspace", "ABC"[op / 4], (op / 2) % 2, (op % 2) ? "3" : "2"); }
+  std::string opname(int op) const { return fmt("evaluate(opt %c, x%d, %s-cost overload) on the shared workspace", "ABCD"[op / 4], (op / 2) % 2, (op % 2) ? "3" : "2"); }
   double call(int op, WS *w, Eigen::VectorXd &g) {
-    Opt &o = *opts[op / 4]; Eigen::VectorXd x = o.generateInitialGuess(); if ((op / 2) % 2) for (int i = 0; i < x.size(); ++i) x(i) += (((i * 7) % 11) - 5) / 32.0;
+    Opt &o = *opts[op / 4]; Eigen::VectorXd x = opts[op / 4 == 3 ? 0 : op / 4]->generateInitialGuess(); if ((op / 2) % 2) for (int i = 0; i < x.size(); ++i) x(i) += (((i * 7) % 11) - 5) / 32.0;
     TimeCost tc; WaypointCost wc; RunCost<D> rc = RunCost<D>::mode(9);
     return (op % 2) ? o.evaluate(x, g, tc, wc, rc, w) : o.evaluate(x, g, tc, rc, w);
   }
@@ -158,7 +161,7 @@ int main(int argc, char **argv) {
   Args a = parse_args(argc, argv);
   return supervise(a, [&](Ctx &c) {
     const bool th = c.args.thorough();
-    const int depth = VPROP == 9 ? (th ? 8 : 5) : VPROP == 15 ? (th ? 7 : 5) : (th ? 6 : 4);
+    const int depth = VPROP == 9 ? (th ? 8 : 5) : VPROP == 15 ? (th ? 7 : 5) : (th ? 5 : 4);
     std::string tag = fmt("%s/%s", TAG, order_name(S));
     BfsResult r = bfs(c, tag, [] { return std::unique_ptr<World>(new World()); }, depth, c.args.thorough() ? 4 : 3);
     note_bfs(c, tag, r, depth);
